@@ -45,7 +45,7 @@ func c17Bounded(ck *Checker, rep *Report, opts *Options) {
 // runBounded runs bounded harness tests injected into /repo packages through
 // go test -overlay and turns their ZZBOUNDED / ZZFAIL lines into evidence and
 // (for failures) violations carrying the failing inputs.
-func runBounded(rep *Report, opts *Options, tag string, files map[string]string, pkgs []string, run string, env []string, expect int, checkName, boundDesc string) {
+func runBounded(rep *Report, opts *Options, tag string, files map[string]string, pkgs []string, run string, env []string, expect int, checkName, boundDesc string, goflags ...string) {
 	scratch := filepath.Join(opts.Scratch, tag)
 	os.MkdirAll(scratch, 0o755)
 	repl := map[string]string{}
@@ -72,7 +72,9 @@ func runBounded(rep *Report, opts *Options, tag string, files map[string]string,
 	if gobin == "" {
 		gobin = "go"
 	}
-	args := append([]string{"test", "-overlay", ov, "-vet=off", "-count=1", "-v", "-timeout", "1200s", "-run", run}, pkgs...)
+	args := append([]string{"test"}, goflags...)
+	args = append(args, "-overlay", ov, "-vet=off", "-count=1", "-v", "-timeout", "1200s", "-run", run)
+	args = append(args, pkgs...)
 	cmd := exec.Command(gobin, args...)
 	cmd.Dir = opts.RepoDir
 	cmd.Env = append(os.Environ(), env...)
@@ -95,7 +97,21 @@ func runBounded(rep *Report, opts *Options, tag string, files map[string]string,
 			"cases_run": m[3], "failures": m[4], "kind": "bounded exhaustive execution of the real function (not a proof)"}
 		rep.Bounded = append(rep.Bounded, entry)
 		if m[4] != "0" {
-			rep.BoundedFail = append(rep.BoundedFail, BoundedFailure{Name: "bounded." + checkName + "[" + m[1] + "]", Inputs: fails})
+			// failing inputs tagged "[<group>] ..." belong to that group's obligation
+			mine := []string{}
+			tagged := false
+			for _, f := range fails {
+				if strings.HasPrefix(f, "[") {
+					tagged = true
+				}
+				if strings.HasPrefix(f, "["+m[1]+"] ") {
+					mine = append(mine, f)
+				}
+			}
+			if !tagged {
+				mine = fails
+			}
+			rep.BoundedFail = append(rep.BoundedFail, BoundedFailure{Name: "bounded." + checkName + "[" + m[1] + "]", Inputs: mine})
 		}
 	}
 }
